@@ -3304,6 +3304,10 @@ MODULES = {
                      + [(None, None, "merge_partitions")]
                      + [("RE", None, f) for f in ("empty_complement", "num_deriv_classes", "valid_class_id", "is_empty",
                                                   "pick_class_rep", "class_of_char", "class_of_set")]
+                     # appended: the constructor of a hash-consed term (attributes computed from the key)
+                     + [("CharSet", None, "is_singleton"), ("LoopRange", None, "is_point"),
+                        ("BaseRegLan", None, "is_singleton"), ("BaseRegLan", None, "is_simple_pattern"),
+                        ("RE", "HashConsed", "make")]
                      + [("BaseRegLan", None, f) for f in ("is_nullable", "concat_or_atomic", "is_all_chars", "is_full",
                                                           "is_range", "match_char_set", "deriv_class")],
         # is_atomic / is_singleton / is_simple_pattern feed only Display and dead code: no model counterpart, not translated
